@@ -18,8 +18,10 @@ fn name_byte() -> BoxedStrategy<u8> {
 
 fn component() -> BoxedStrategy<Vec<u8>> {
     prop_oneof![
-        6 => prop::collection::vec(name_byte(), 1..=12),
-        2 => prop::sample::select(vec![
+        60 => prop::collection::vec(name_byte(), 1..=12),
+        // now and then a very long component (names are paths, not NAME_MAX-limited tokens)
+        1 => (prop::collection::vec(name_byte(), 1..=6), 100usize..400).prop_map(|(v, n)| (0..n).map(|i| if v[i % v.len()] == 0 { b'x' } else { v[i % v.len()] }).collect::<Vec<u8>>()),
+        20 => prop::sample::select(vec![
             &b"foo-1.0.tar.gz"[..], b"caf\xe9.tar.gz", b"\xc3\xa0.tgz", b"\xc3\x85ngstr\xc3\xb6m.zip", b"\xa0", b"\x85", b"a\xa0b", b"(x)", b"x)", b"(x",
             b"a=b", b"#c", b"$d", b"sub", b"..."
         ]).prop_map(|s| s.to_vec()),
@@ -100,6 +102,16 @@ pub fn doc(max_files: usize) -> BoxedStrategy<Doc> {
         .prop_map(|(rcsid, files)| {
             let mut d = Doc { rcsid, ..Default::default() };
             let mut seen = std::collections::BTreeSet::new();
+            // a second file with the same last component in another directory
+            let mut files = files;
+            if let Some((n, c, s)) = files.first().cloned() {
+                if files.len() % 3 == 1 && m::classify(&n) == Kind::Distfile {
+                    let twin = [b"twin-dir/".to_vec(), m::basename(&n).to_vec()].concat();
+                    if m::unambiguous(&twin) {
+                        files.insert(1.min(files.len()), (twin, c.into_iter().rev().collect(), s.map(|x| x ^ 1)));
+                    }
+                }
+            }
             for (name, checksums, size) in files {
                 if !seen.insert(name.clone()) {
                     continue;
